@@ -365,6 +365,10 @@ def pkt_line(data: bytes | None) -> bytes:
     """
     if data is None:
         return b"0000"
+    if len(data) > 65516:
+        raise ValueError(
+            f"pkt-line payload of {len(data)} bytes exceeds the maximum of 65516"
+        )
     return f"{len(data) + 4:04x}".encode("ascii") + data
 
 
